@@ -95,23 +95,29 @@ def _each_field(prog):
 
 
 def present_typedef(prog, chain=2):
-    """every field type is written through a typedef chain of the given length (same schema)."""
+    """every field type is written through a typedef chain of the given length (same schema); the typedefs live in
+    the file of the field that uses them"""
     p = copy.deepcopy(prog)
-    f0 = p["files"][0]
-    tds = []
-    seen = {}
-    for _, d, fl in _each_field(p):
-        key = idl.type_to_str(fl["type"])
-        if key not in seen:
-            names = ["Td%d_%d" % (len(seen), j) for j in range(chain)]
-            seen[key] = names[-1]
-            prev = fl["type"]
-            for nm in names:
-                tds.append({"k": "typedef", "name": nm, "type": prev})
-                prev = {"n": nm}
-        fl["type"] = {"n": seen[key]}
-    # typedefs after the definitions they refer to is fine for thriftgo; put them last to stress ordering
-    f0["defs"] = f0["defs"] + tds
+    n = [0]
+    for fi, f in enumerate(p["files"]):
+        tds = []
+        seen = {}
+        for d in f["defs"]:
+            if d["k"] not in ("struct", "union", "exception"):
+                continue
+            for fl in d["fields"]:
+                key = idl.type_to_str(fl["type"])
+                if key not in seen:
+                    names = ["Td%d_%d" % (n[0], j) for j in range(chain)]
+                    n[0] += 1
+                    seen[key] = names[-1]
+                    prev = fl["type"]
+                    for nm in names:
+                        tds.append({"k": "typedef", "name": nm, "type": prev})
+                        prev = {"n": nm}
+                fl["type"] = {"n": seen[key]}
+        # typedefs after the definitions they refer to is fine for thriftgo; put them last to stress ordering
+        f["defs"] = f["defs"] + tds
     return p
 
 
